@@ -179,13 +179,43 @@ def main():
                 if not any(f in r["stderr"] for f in case["files"]):
                     c.violation(key + ":file-not-named", "`yardl %s` rejected [%s] but no error names %s: %s" % (cmd, desc, case["files"], r["stderr"][-300:]), replay)
                     break
+    # ---- Cross.tla: a type that breaks one rule, at every kind of use site (record field, container argument, union case, generic
+    # argument written as a string or as a node, alias, protocol step and below it, stream item); must be rejected wherever it is used
+    fcross = os.path.join(sc, "cross.ndjson")
+    tlc_eval("Cross", timeout=600, workdir=scratch("verif-c09-tlcx-"), env={"VERIF_OUT": fcross})
+    cross = [json.loads(l) for l in open(fcross) if l.strip()]
+    cross = [x for x in cross if x["must_reject"] or x["must_accept"]]
+    c.cov["tlc_cross_must_reject"] = sum(1 for x in cross if x["must_reject"])
+
+    def workx(x):
+        if not hasattr(tl, "dir"):
+            tl.dir = os.path.join(sc, "w%d" % next(counter))
+        root = tl.dir
+        shutil.rmtree(root, ignore_errors=True)
+        os.makedirs(os.path.join(root, "main"))
+        open(os.path.join(root, "main", "_package.yml"), "w").write("namespace: Cross\njson:\n  outputDir: ../out/json\n")
+        open(os.path.join(root, "main", "m.yml"), "w").write(x["text"])
+        rc, o, e, ev = cu.run_yardl(yardl, "validate", os.path.join(root, "main"), home, [])
+        return x, rc, e.replace(root + "/", "")[-800:]
+
+    for x, rc, err in pmap(workx, cross):
+        c.count("cross:%s@%s" % (x["what"], x["site"]), nontrivial=True)
+        key = "C09:cross:%s@%s" % (x["what"], x["site"])
+        replay = {"model": x["text"], "rule": x["rule"], "command": "validate", "exit": rc, "stderr": err}
+        if x["must_accept"] and rc != 0:
+            raise Inconclusive("Cross.tla control %s@%s is rejected by yardl: %s" % (x["what"], x["site"], err[-300:]))
+        if x["must_reject"]:
+            if rc == 0:
+                c.violation(key + ":accepted", "`yardl validate` accepted a model whose type breaks the '%s' rule (%s) used at site '%s'" % (x["rule"], x["what"], x["site"]), replay)
+            elif rc == 1 and "m.yml" not in err:
+                c.violation(key + ":file-not-named", "`yardl validate` rejected %s at %s but no error names m.yml: %s" % (x["what"], x["site"], err[-200:]), replay)
     for x in singles[1:4]:
         c.sample({"violations": x["violations"], "fragment": [fragment(v, "x%d" % k) for k, v in enumerate(x["violations"])], "must_name": x["files"]})
     c.assumptions += ["each (rule, position) has one concrete YAML fragment (checks/c09.py tables); a rule could be violated by other spellings too",
                       "verdict read from exit status and from the file names on stderr, never from message wording"]
     c.finish(rule="Rules.tla enumerates (rule x type position x package location) for %d rules, 10 type positions and 6 locations (main file, second "
                   "file, import level 1/2, previous version, import of a previous version), singly (all) and in pairs (seeded sample); each closure is "
-                  "concretised and given to `yardl validate` and `yardl generate`; distinct = violation sets" % (len(BAD) + len(DEF)),
+                  "concretised and given to `yardl validate` and `yardl generate`; Cross.tla: every rule-breaking type expression x every use site of a type must be rejected; distinct = violation sets" % (len(BAD) + len(DEF)),
              exhaustive=False)
 
 
